@@ -358,7 +358,7 @@ def _flat(x, out):
     return out
 
 
-def _same(a, b, scale=0.0):
+def _same(a, b, scale=0.0, rtol=0.0):
     """Equality of nested results: same structure, NaN equal to NaN, error dicts by class, numbers to 1e-12 of the
     largest magnitude (two evaluations of the same BLAS product may differ in the last bit with the memory alignment)."""
     if (isinstance(a, dict) and "error" in a) or (isinstance(b, dict) and "error" in b):
@@ -376,7 +376,7 @@ def _same(a, b, scale=0.0):
             if math.isnan(x) or math.isnan(y):
                 if not (math.isnan(x) and math.isnan(y)):
                     return False
-            elif not (x == y or abs(x - y) <= tol):
+            elif not (x == y or abs(x - y) <= tol or abs(x - y) <= rtol * max(abs(x), abs(y))):
                 return False
         elif x != y:
             return False
@@ -838,10 +838,10 @@ def _run_impl(case):
             o["noise_cov"] = float(fd._noise_variance_cov)
             o["varhat"] = _varhat(np.diag(cov.values[0]), fl(t), fl(t)).tolist()
             o["cov_raw"] = _dense([t], X).covariance(center=False).values[0].tolist()
-            fp = _dense([t], X[perm])
+            fp = _dense([t], _layout(X[perm], case.get("layout")))
             o["mean_perm"] = fp.mean().values[0].tolist()
             o["cov_perm"] = fp.covariance().values[0].tolist()
-            fa = _dense([t], a * X + c)
+            fa = _dense([t], _layout(a * X + c, case.get("layout")))
             o["mean_aff"] = fa.mean().values[0].tolist()
             o["cov_aff"] = fa.covariance().values[0].tolist()
             # history on ONE object: estimate, replace the values through the setter, estimate again
